@@ -343,17 +343,28 @@ pub fn check_history(h: &History, rec: &mut Recorder) -> Result<(), String> {
     let mut planted_deep = false;
     let mut classes: Vec<&'static str> = vec![];
     let log = std::rc::Rc::new(std::cell::RefCell::new(Vec::<u8>::new()));
-    struct LogWriter(std::rc::Rc<std::cell::RefCell<Vec<u8>>>);
+    // every other history writes through a writer that takes only a few bytes per
+    // call (a pipe, a socket): the document must arrive complete all the same
+    struct LogWriter(std::rc::Rc<std::cell::RefCell<Vec<u8>>>, usize);
     impl std::io::Write for LogWriter {
         fn write(&mut self, buf: &[u8]) -> std::io::Result<usize> {
-            self.0.borrow_mut().extend_from_slice(buf);
-            Ok(buf.len())
+            let n = buf.len().min(self.1);
+            self.0.borrow_mut().extend_from_slice(&buf[..n]);
+            Ok(n)
         }
         fn flush(&mut self) -> std::io::Result<()> {
             Ok(())
         }
     }
-    let mut t = xt::Translator::new(LogWriter(log.clone()), Fmt::Toml.xt());
+    let piece = match prepared[0].2.len() % 4 {
+        0 => 1,
+        1 => 7,
+        _ => usize::MAX,
+    };
+    if piece != usize::MAX {
+        classes.push("short_writes");
+    }
+    let mut t = xt::Translator::new(LogWriter(log.clone(), piece), Fmt::Toml.xt());
     for (ci, (fmt, mode, text, models)) in prepared.iter().enumerate() {
         let before = log.borrow().len();
         let verdict = translator_call(&mut t, text, mode, Some(*fmt));
@@ -479,7 +490,7 @@ impl Check for C08 {
         vec![Unit::gen("history", 16, tier.pick(12_000, 100_000)), Unit::gen("paths", 8, tier.pick(150, 1500)), Unit::gen("cli", 8, tier.pick(150, 2500))]
     }
     fn required_classes(&self, _tier: Tier) -> Vec<&'static str> {
-        vec!["accepted_document", "refusable_document", "second_document_or_input", "unspecified_document", "refusal_at_depth", "calls:2", "calls:3", "paths:null", "paths:oversized_int", "paths:nonroot_key_null", "cli:all_translated", "cli:refused", "cli:later_input_after_accepted_document"]
+        vec!["accepted_document", "refusable_document", "second_document_or_input", "unspecified_document", "refusal_at_depth", "calls:2", "calls:3", "paths:null", "paths:oversized_int", "paths:nonroot_key_null", "short_writes", "cli:all_translated", "cli:refused", "cli:later_input_after_accepted_document"]
     }
     fn run_unit(&self, unit: &Unit, _shard: u32, seed: u64, _tier: Tier, rec: &mut Recorder) {
         match unit.name {
